@@ -1181,43 +1181,33 @@ func c17Drops(r, v *c17J) bool {
 	return true
 }
 
-var (
-	c17Two53 = new(big.Int).Lsh(big.NewInt(1), 53)
-	c17Two63 = new(big.Int).Lsh(big.NewInt(1), 63)
-	c17Two64 = new(big.Int).Lsh(big.NewInt(1), 64)
-)
-
 // c17RoundingSensitive: the value contains a number literal on which Go's
 // detour through float64 (FilterJson for int; float range) can differ from
-// exact decimal arithmetic, which is what the model uses: a float-syntax
-// literal with more than 15 significant digits, or whose magnitude lies in
-// (2^53, 2^64), or beyond 1e±300; an integer-syntax literal in (-2^64, -2^63).
+// exact decimal arithmetic, which is what the exact-decimal model
+// (Martian.Types) uses: EXACTLY the literals that are no float64 value
+// (strconv.ParseFloat rounds them, or reports ErrRange) – the complement of
+// the model's Num.exact64, with which it is compared on every run (c17Numerals).
+// An integer-syntax literal within int64 never takes the detour.  Such cases
+// are compared with the rounded-numeral model (Martian.TypesR) only.
 func c17RoundingSensitive(v *c17J) bool {
 	switch v.kind {
 	case 'i':
-		if v.ival.Sign() < 0 {
-			a := new(big.Int).Abs(v.ival)
-			return a.Cmp(c17Two63) > 0 && a.Cmp(c17Two64) < 0
+		if v.ival.IsInt64() {
+			return false
 		}
+		text := v.ival.String()
+		f, err := strconv.ParseFloat(text, 64)
+		return err != nil || !c17ExactDecimalEq(text, f)
 	case 'd':
-		digits := strings.TrimRight(new(big.Int).Abs(v.ival).String(), "0")
-		if len(digits) > 15 {
-			return true
-		}
 		if v.ival.Sign() == 0 {
 			return false
 		}
-		mag := int64(len(new(big.Int).Abs(v.ival).String())) + v.exp // value < 10^mag
-		if mag > 300 || mag < -300 {
+		if v.exp > 5000 || v.exp < -5000 {
 			return true
 		}
-		if v.exp >= 0 {
-			a := new(big.Int).Abs(v.ival)
-			a.Mul(a, new(big.Int).Exp(big.NewInt(10), big.NewInt(v.exp), nil))
-			return a.Cmp(c17Two53) > 0 && a.Cmp(c17Two64) < 0
-		}
-		// negative exponent: |value| <= |mant| < 10^15 < 2^53
-		return false
+		text := fmt.Sprintf("%se%d", v.ival.String(), v.exp)
+		f, err := strconv.ParseFloat(text, 64)
+		return err != nil || !c17ExactDecimalEq(text, f)
 	}
 	for _, e := range v.arr {
 		if c17RoundingSensitive(e) {
@@ -1306,7 +1296,7 @@ func runC17(c *Ctx) {
 	r.Rule = "types: generated MRO source (2 filetypes, 5 fixed + N random/derived structs; arrays up to 3 dims, typed maps of arrays, arrays of maps, structs of structs) compiled by the real compiler; values: type-directed valid JSON, one or two near-miss mutations at random positions (number-as-string, float-for-int, deeper/shallower nesting, missing/extra member, illegal map key, null, other value, out-of-range int, object/array swap), values valid for an assignable source type; rendered compact or with random whitespace and string escapes. Each case: real IsValidJson/FilterJson (+ second FilterJson, + IsValidJson of the result) vs Lean check/filter (verdict enums, output trees with sorted members); monitors on the real code: idempotence, only-drops, null accepted, filter-valid-of-assignable; assignability: full builtin x user table and all ordered pairs of a universe's types vs Lean, reflexivity, array/map/struct component rules. non-trivial = filter output differs from its input, or validation is not clean although the root has the declared container shape; distinct = distinct (type, JSON text)"
 	nUniverses, perUniverse := 16, 5000
 	if c.Thorough {
-		nUniverses, perUniverse = 150, 14000
+		nUniverses, perUniverse = 125, 14000
 	}
 
 	// ---- corpus: lines `<mro type>\t<json text>` evaluated in the fixed universe ----
@@ -1337,6 +1327,11 @@ func runC17(c *Ctx) {
 	}
 	c17Witnesses(c, fixedU)
 	c17RunCases(c, cases)
+	nnum := 6000
+	if c.Thorough {
+		nnum = 60000
+	}
+	c17Numerals(c, fixedU, nnum)
 
 	for ui := 0; ui < nUniverses; ui++ {
 		u := fixedU
@@ -1440,15 +1435,22 @@ func c17RunCases(c *Ctx, cases []*c17Case) {
 		if hi > len(cases) {
 			hi = len(cases)
 		}
-		reqs := make([][]string, 0, hi-lo)
+		reqs := make([][]string, 0, 2*(hi-lo))
 		for _, cs := range cases[lo:hi] {
 			reqs = append(reqs, []string{"C17.case", cs.t.enc(), cs.v.encModel()})
+			reqs = append(reqs, []string{"C17.caser", cs.t.enc(), cs.v.encModel()})
 		}
 		reps := c.Drv.AskBatch(reqs)
 		for i, cs := range cases[lo:hi] {
-			c17Judge(c, cs, reps[i], true)
+			c17Judge(c, cs, reps[2*i]+"\x01"+reps[2*i+1], true)
 		}
 	}
+}
+
+// c17AskBoth: the replies of the exact-decimal model and of the rounded-numeral model.
+func c17AskBoth(c *Ctx, cs *c17Case) string {
+	return c.Drv.Ask("C17.case", cs.t.enc(), cs.v.encModel()) + "\x01" +
+		c.Drv.Ask("C17.caser", cs.t.enc(), cs.v.encModel())
 }
 
 // c17Judge compares one case; returns the keys of the failures found.
@@ -1469,6 +1471,10 @@ func c17Judge(c *Ctx, cs *c17Case, reply string, report bool) []string {
 	if g.panic != "" {
 		fail(Violation{Kind: "property", Key: "C17:panic", What: "IsValidJson/FilterJson panicked: " + g.panic})
 		return fails
+	}
+	replyR := ""
+	if i := strings.IndexByte(reply, 1); i >= 0 {
+		reply, replyR = reply[:i], reply[i+1:]
 	}
 	toks := strings.Split(reply, " ")
 	if len(toks) < 4 {
@@ -1544,6 +1550,48 @@ func c17Judge(c *Ctx, cs *c17Case, reply string, report bool) []string {
 			fail(Violation{Kind: "correspondence", Key: "C17:check-of-filtered-mismatch",
 				What: fmt.Sprintf("IsValidJson of the filtered value differs from the model (%s vs %s)", g.check2, toks[2]),
 				Impl: g.check2, Model: toks[2], Broken: "correspondence C17.case (Martian.Types.check)"})
+		}
+	}
+	// ---- correspondence with the model over numerals as Go reads them (Martian.TypesR):
+	//      EVERY case, rounding-sensitive numerals included ----
+	if replyR != "" {
+		tr := strings.Split(replyR, " ")
+		var mTreeR *c17J
+		if len(tr) >= 4 {
+			var restR []string
+			var perr error
+			mTreeR, restR, perr = c17ParseEnc(tr[3:])
+			if perr != nil || len(restR) != 0 {
+				mTreeR = nil
+			}
+		}
+		if mTreeR == nil {
+			fail(Violation{Kind: "correspondence", Key: "C17:driver-reply", What: "driver reply " + replyR,
+				Broken: "correspondence C17.caser"})
+			return fails
+		}
+		if report && sens {
+			r.hist("float64-rounding-sensitive-compared-with-rounded-model")
+		}
+		if tr[0] != g.check {
+			fail(Violation{Kind: "correspondence", Key: "C17:rounded:check-mismatch",
+				What: fmt.Sprintf("IsValidJson verdict differs from the rounded-numeral model (%s vs %s): %s", g.check, tr[0], g.detail),
+				Impl: g.check, Model: tr[0], Broken: "correspondence C17.caser (Martian.TypesR.check)"})
+		}
+		if tr[1] != g.ferr {
+			fail(Violation{Kind: "correspondence", Key: "C17:rounded:filter-verdict-mismatch",
+				What: fmt.Sprintf("FilterJson error class differs from the rounded-numeral model (%s vs %s): %s", g.ferr, tr[1], g.detail),
+				Impl: g.ferr, Model: tr[1], Broken: "correspondence C17.caser (Martian.TypesR.filter)"})
+		}
+		if me, ge := mTreeR.enc(true), g.outTree.enc(true); me != ge && g.ferr != "fatal" {
+			fail(Violation{Kind: "correspondence", Key: "C17:rounded:filter-output-mismatch",
+				What: "FilterJson output differs (as a tree) from the rounded-numeral model's",
+				Impl: string(g.out), Model: me, Broken: "correspondence C17.caser (Martian.TypesR.filter)"})
+		}
+		if tr[2] != g.check2 && g.ferr != "fatal" {
+			fail(Violation{Kind: "correspondence", Key: "C17:rounded:check-of-filtered-mismatch",
+				What: fmt.Sprintf("IsValidJson of the filtered value differs from the rounded-numeral model (%s vs %s)", g.check2, tr[2]),
+				Impl: g.check2, Model: tr[2], Broken: "correspondence C17.caser (Martian.TypesR.check)"})
 		}
 	}
 	// ---- martian/core: LazyArgumentMap.Path("", …) = LazyArgumentMap.filter(dest) ----
@@ -1692,7 +1740,7 @@ func c17Shrink(c *Ctx, cs *c17Case, key string) *c17Case {
 			return nil
 		}
 		n := &c17Case{u: cs.u, t: cs.t, v: tree, text: []byte(sb.String()), how: cs.how + "+shrunk", src: cs.src}
-		rep := c.Drv.Ask("C17.case", n.t.enc(), n.v.encModel())
+		rep := c17AskBoth(c, n)
 		for _, k := range c17Judge(c, n, rep, false) {
 			if k == key {
 				return n
@@ -1771,7 +1819,7 @@ func c17Witnesses(c *Ctx, u *c17Universe) {
 	fva := func(d, s, text string) {
 		cs := &c17Case{u: u, t: get(d), src: get(s), text: []byte(text), how: "witness"}
 		cs.v, _ = c17ParseJSON(cs.text)
-		rep := c.Drv.Ask("C17.case", cs.t.enc(), cs.v.encModel())
+		rep := c17AskBoth(c, cs)
 		keys := c17Judge(c, cs, rep, true)
 		c.Res.note("witness %s <- %s on %s: real code reports %v", d, s, text, keys)
 	}
